@@ -31,8 +31,8 @@ import (
 func TestMain(m *testing.M) { vkit.Main(m) }
 
 const (
-	zcn        = uint64(1e10)
-	keyLost    = "cannot-publish:removal-of-recreated-node-not-recorded"
+	zcn         = uint64(1e10)
+	keyLost     = "cannot-publish:removal-of-recreated-node-not-recorded"
 	keyWithheld = "accepted-incomplete:changed-node-withheld"
 )
 
